@@ -267,6 +267,40 @@ func init() {
 					c.Cover("type:" + t.Name)
 				}})
 			}
+			// every whole-message encoding policy (one kind of non-canonical choice taken EVERYWHERE in the message,
+			// which the bounded choice vectors above reach only for tiny values) on every zoo value with <=2 deviations
+			for i := range zoo.Types {
+				t := &zoo.Types[i]
+				us = append(us, core.Unit{Name: "policies:" + t.Name, Cost: 5, Run: func(c *core.Ctx) {
+					forEachZooRaw(c, t, 2, true, func(zc *ZooCase) {
+						tm, nm, p := Maps(zc.Val)
+						if p != "" {
+							return
+						}
+						for pi := 1; pi < len(largePolicies); pi++ {
+							if !c.Begin() {
+								continue
+							}
+							c.NontrivialN(1)
+							c.Res.States++
+							var w *rh.Value
+							if p := core.Catch(func() { w = zoo.NewDenoter(nm).Denote(zc.Val) }); p != "" {
+								return
+							}
+							e := rh.NewEncoder(largePolicies[pi])
+							e.NoCompactDate = true
+							e.Top(w)
+							desc := zc.Desc + " | encoding policy: " + largePolicies[pi].name
+							if _, err := rh.ParseOne(e.Out); err != nil {
+								c.Report(&core.Violation{Stage: "selfcheck", Kind: "harness", Shape: "R1", Message: "R1 cannot parse its own rendering: " + err.Error(), Case: desc})
+								continue
+							}
+							c.Outcome(decodeAgainst(c, e.Out, zc.Val, tm, nm, desc, "policy "+largePolicies[pi].name, zc.Choices))
+						}
+					})
+					c.Cover("policies")
+				}})
+			}
 			// maps of three entries one of which is null on the wire (empty string, nil pointer, zero time, nil map,
 			// empty key), in every wire order of the entries, typed and untyped
 			us = append(us, core.Unit{Name: "map-entry-orders", Cost: 5, Run: func(c *core.Ctx) {
@@ -354,7 +388,7 @@ func init() {
 			return us
 		},
 		RequireCover: func(string) []string {
-			l := []string{"large", "map-entry-orders", "choice:hoist-order", "choice:int-form", "choice:long-form", "choice:double-form", "choice:date-form", "choice:str-split", "choice:str-final", "choice:bin-split", "choice:bin-final",
+			l := []string{"large", "policies", "map-entry-orders", "choice:hoist-order", "choice:int-form", "choice:long-form", "choice:double-form", "choice:date-form", "choice:str-split", "choice:str-final", "choice:bin-split", "choice:bin-final",
 				"choice:list-form", "choice:list-untype", "choice:map-addtype", "choice:type-backref", "choice:object-form", "choice:hoist-classdef"}
 			for _, t := range zoo.Types {
 				l = append(l, "type:"+t.Name)
